@@ -238,7 +238,7 @@ func cmdCheck(args []string) int {
 	}
 	genTime := time.Since(start).Seconds()
 	solveStart := time.Now()
-	dischargeAll(e.obligs, dir, *timeout, 16)
+	dischargeAll(e.obligs, dir, *timeout, 8)
 	solveWall := time.Since(solveStart).Seconds()
 	groups := groupObligations(e.obligs)
 
